@@ -1,5 +1,7 @@
 CONSTANTS Keys <- KeysC
           Known <- KnownC
+          Varies <- NoVaries
+          TableFollowsDialect = FALSE
           MaxOps = 0
 INIT CInit
 NEXT CNext
